@@ -62,3 +62,70 @@ pub mod std_shim {
         }
     }
 }
+
+// ------------------------------------------------------------------------------------------------------------
+// helpers for the external harness crate (macro expansions hard-code `::unimock`, so those harnesses live outside)
+
+/// Run the closure a `matching!` invocation registers, with diagnostics on or off.
+/// Returns (accepted, bit mask of the argument positions reported as mismatching, number of reports).
+pub fn run_matcher<F: MockFn>(
+    matching_fn: &dyn Fn(&mut crate::private::Matching<F>),
+    inputs: &F::Inputs<'_>,
+    diagnostics: bool,
+) -> (bool, u32, u32) {
+    let mut builder = crate::private::Matching::<F>::new();
+    matching_fn(&mut builder);
+    let f = match builder.matching_fn {
+        Some(f) => f,
+        None => return (false, u32::MAX, u32::MAX),
+    };
+    #[cfg(kani)]
+    let mut reporter = crate::private::MismatchReporter::kani_with_capacity(diagnostics);
+    #[cfg(not(kani))]
+    let mut reporter = if diagnostics {
+        crate::private::MismatchReporter::new_enabled()
+    } else {
+        crate::private::MismatchReporter::new_disabled()
+    };
+    let accepted = (f.0)(inputs, &mut reporter);
+    let mut mask = 0u32;
+    let mut n = 0u32;
+    for (crate::call_pattern::InputIndex(i), _) in reporter.mismatches.iter() {
+        mask |= 1u32 << (*i as u32);
+        n += 1;
+    }
+    core::mem::forget(reporter);
+    (accepted, mask, n)
+}
+
+/// The pattern source text and location a `matching!` invocation registers (C19).
+pub fn matcher_debug<F: MockFn>(
+    matching_fn: &dyn Fn(&mut crate::private::Matching<F>),
+) -> Option<(&'static str, &'static str, u32)> {
+    let mut builder = crate::private::Matching::<F>::new();
+    matching_fn(&mut builder);
+    builder.matcher_debug.map(|d| (d.pat_debug, d.file, d.line))
+}
+
+/// Payload of `Continuation::Answer` for scripted evaluators (the field is crate-private).
+pub fn answer_closure<F: MockFn>(f: &'static F::AnswerFn) -> crate::private::AnswerClosure<F> {
+    crate::private::AnswerClosure(crate::private::AnswerClosureInner::Ref(f))
+}
+
+/// Identity of the shared state an instance points at (C15/C16: "evaluated by the same mock").
+pub fn state_id(u: &Unimock) -> usize {
+    crate::alloc::Arc::as_ptr(&u.shared_state) as *const () as usize
+}
+
+/// Is this the original instance? (C15)
+pub fn is_original(u: &Unimock) -> bool {
+    u.original_instance
+}
+
+pub fn type_id_of(info: &MockFnInfo) -> core::any::TypeId {
+    info.type_id
+}
+
+pub fn info_flags(info: &MockFnInfo) -> (bool, bool) {
+    (info.has_default_impl, info.partial_by_default)
+}
